@@ -1,4 +1,5 @@
-// Debug helper for C16: show the effect of every repair on one op line (file given as argument).
+// Debug helper for C16: show the effect of every repair on one op line (file given as argument), or with
+// "-src FILE" evaluate raw source text with the real interpreter and with python3.
 package main
 
 import (
@@ -9,6 +10,11 @@ import (
 )
 
 func main() {
+	if os.Args[1] == "-src" {
+		b, _ := os.ReadFile(os.Args[2])
+		asplib.DebugSource(string(b))
+		return
+	}
 	b, _ := os.ReadFile(os.Args[1])
 	asplib.DebugClassify(strings.TrimSpace(strings.Split(string(b), "\n")[0]))
 }
